@@ -434,4 +434,26 @@ mod verif_in_handle {
         kani::cover!(c == 0, "counter wrapped to 0");
         kani::cover!(c == 65535, "last identifier before the wrap");
     }
+
+    //@ h name=sub_id_alloc props=C11 tier=quick cap=small to=600
+    //@ claim: the subscription identifier handed to SubscribeOpts by subscribe() is accepted for every state of the shared counter: allocation never panics, the identifier is a legal Subscription Identifier (1..=268435455, a variable byte integer), and two consecutive allocations differ
+    //@ bounds: every counter value (u32); two consecutive allocations
+    //@ funcs: next_subscription_id, SubscribeOpts::subscription_identifier, VarSizeInt::try_from(u32), NonZero::try_from(VarSizeInt)
+    #[kani::proof]
+    #[kani::unwind(4)]
+    pub(crate) fn sub_id_alloc() {
+        let c: u32 = kani::any();
+        let counter = AtomicU32::from(c);
+        // what subscribe() does with the shared counter
+        let a = next_subscription_id(&counter);
+        let b = next_subscription_id(&counter);
+        assert!(a >= 1 && a <= 0x0fff_ffff && b >= 1 && b <= 0x0fff_ffff, "a legal Subscription Identifier");
+        let oa = SubscribeOpts::new().subscription_identifier(a);
+        let ob = SubscribeOpts::new().subscription_identifier(b);
+        assert!(a != b, "consecutive subscription identifiers differ");
+        kani::cover!(c == 0x0fff_ffff, "largest legal subscription identifier");
+        kani::cover!(c == u32::MAX, "counter about to wrap");
+        core::mem::forget(oa);
+        core::mem::forget(ob);
+    }
 }
